@@ -30,7 +30,7 @@ pub fn def11() -> PropDef {
     PropDef {
         info: PropInfo {
             id: "C11",
-            rule: "the C02 probe generator restricted to the regions Cranelift knows {packet, metadata buffer, 512-byte stack} on the metadata VM, the raw VM and the no-data VM (metadata buffer present or empty, packet empty or not), same boundary windows (incl. packet and metadata buffer only 1-7 bytes apart, a narrower priming access through the same register and offset, up to four in-bounds loads through the same register at other offsets - into whichever regions the 16-bit offset reaches - and, in a quarter of the probes, an in-bounds access of the same offset and width after which the base register is redefined by lddw / mov / add / a stack reload / the result of a helper call / ldabs, all in the same basic block), null, top-of-address-space and wrap-around addresses. Each probe is compiled with Cranelift and executed in its own forked child. Oracle: in bounds => the child returns the exact loaded value / the stored bytes are exactly the expected ones; out of bounds => the child is terminated by SIGILL (the trap) and no byte of packet, metadata or the surrounding canary bytes changed; a normal return, SIGSEGV/SIGBUS, or a changed byte is a violation. Non-trivial = effective address within 9 bytes of a region boundary, or wrapped; distinct by hash of layout+probe.",
+            rule: "the C02 probe generator restricted to the regions Cranelift knows {packet, metadata buffer, 512-byte stack} on the metadata VM, the raw VM and the no-data VM (metadata buffer present or empty, packet empty or not), same boundary windows (incl. packet and metadata buffer only 1-7 bytes apart, a narrower priming access through the same register and offset, up to four in-bounds loads through the same register at other offsets - into whichever regions the 16-bit offset reaches - and, in a quarter of the probes, an in-bounds access of the same offset and width after which the base register is redefined by lddw / mov / add / a stack reload / the result of a helper call / ldabs, all in the same basic block), null, top-of-address-space and wrap-around addresses; plus 240 enumerated packet loads (ldabs / ldind, every width) on an EMPTY packet - the dangling slice `&mut []` and an empty slice at a mapped address - on the raw, metadata and fixed-metadata VM structs, which must trap. Each probe is compiled with Cranelift and executed in its own forked child. Oracle: in bounds => the child returns the exact loaded value / the stored bytes are exactly the expected ones; out of bounds => the child is terminated by SIGILL (the trap) and no byte of packet, metadata or the surrounding canary bytes changed; a normal return, SIGSEGV/SIGBUS, or a changed byte is a violation. Non-trivial = effective address within 9 bytes of a region boundary, or wrapped; distinct by hash of layout+probe.",
             assumptions: &["a Cranelift trap surfaces as SIGILL (ud2) in the child", "guard pages make an out-of-region read fault; a returned value proves that a read was performed"],
         },
         run: run11,
@@ -978,13 +978,130 @@ fn drive(ctx: &Ctx, eng: Eng, quick: u64, thorough: u64) {
 
 fn run02(ctx: &Ctx) {
     drive(ctx, Eng::Interp, 200_000, 4_000_000);
+    empty_packet_probes(ctx, Eng::Interp);
 }
 
 fn run11(ctx: &Ctx) {
     drive(ctx, Eng::Cranelift, 32_000, 640_000);
+    empty_packet_probes(ctx, Eng::Cranelift);
+}
+
+// ---- packet loads on an empty packet, on every VM struct that takes a packet ------------------
+//
+// The layouts above have no fixed-metadata VM (an access near its stack may land in the VM's own
+// heap buffer, which the address oracle cannot see). A packet load on an EMPTY packet needs no
+// address oracle: no byte of it lies inside any region, so the interpreter must return Err and
+// Cranelift must trap - whether the empty slice is the dangling `&mut []` (address 1) or an
+// empty slice at a real, mapped address.
+
+/// (vm 0 raw / 1 metadata / 2 fixed-metadata, dangling slice?, ldind?, width, immediate)
+type EmptyProbe = (u8, bool, bool, u8, u32);
+
+fn empty_probe_prog(p: &EmptyProbe) -> Vec<u8> {
+    let (_, _, ind, w, imm) = *p;
+    let mut out = vec![];
+    if ind {
+        out.push(Insn::new(alu_opc(true, ALU_MOV, false), 3, 0, 0, (imm / 2) as i32));
+        out.push(Insn::new(ldind_opc(w as usize), 0, 3, 0, (imm - imm / 2) as i32));
+    } else {
+        out.push(Insn::new(ldabs_opc(w as usize), 0, 0, 0, imm as i32));
+    }
+    out.push(Insn::new(EXIT, 0, 0, 0, 0));
+    encode_prog(&out)
+}
+
+fn empty_probe_check(mem: &Mem, p: &EmptyProbe, eng: Eng) -> Verdict {
+    use crate::runner::{Engine, VmKind};
+    let (vm, dangling, _, _, _) = *p;
+    let kind = match vm % 3 {
+        0 => VmKind::Raw,
+        1 => VmKind::Mbuff { data_off: 0, end_off: 8 },
+        _ => VmKind::Fixed { data_off: 0x40, end_off: 0x50 },
+    };
+    let real = mem.pkt.data_start() as usize + 64;
+    let r = super::fork_call(|| {
+        let prog: &'static [u8] = Box::leak(empty_probe_prog(p).into_boxed_slice());
+        let Ok(mut vm) = crate::vmx::AnyVm::new(kind, Some(prog)) else { return (5, 0) };
+        if eng == Eng::Cranelift {
+            match catch(std::panic::AssertUnwindSafe(|| vm.cranelift_compile())) {
+                Ok(Ok(())) => {}
+                Ok(Err(_)) => return (4, 0),
+                Err(_) => return (3, 0),
+            }
+        }
+        let pkt: &'static mut [u8] = if dangling { &mut [] } else { unsafe { std::slice::from_raw_parts_mut(real as *mut u8, 0) } };
+        let mb: &'static mut [u8] = Box::leak(vec![0u8; 32].into_boxed_slice());
+        let a = pkt.as_ptr() as u64;
+        mb[..8].copy_from_slice(&a.to_le_bytes());
+        mb[8..16].copy_from_slice(&a.to_le_bytes());
+        let (pa, pl, ma) = (pkt.as_mut_ptr(), pkt.len(), mb.as_mut_ptr());
+        match catch(std::panic::AssertUnwindSafe(|| unsafe {
+            let pkt: &'static mut [u8] = std::slice::from_raw_parts_mut(pa, pl);
+            let mb: &'static mut [u8] = std::slice::from_raw_parts_mut(ma, 32);
+            vm.exec(if eng == Eng::Cranelift { Engine::Cranelift } else { Engine::Interp }, pkt, mb)
+        })) {
+            Ok(Ok(v)) => (1, v),
+            Ok(Err(_)) => (2, 0),
+            Err(_) => (3, 0),
+        }
+    });
+    let what = || format!("{} VM, empty packet ({}), {}\n{}", kind.name(), if dangling { "the dangling slice &mut []" } else { "an empty slice at a mapped address" }, if eng == Eng::Cranelift { "Cranelift" } else { "interpreter" }, isa::listing(&empty_probe_prog(p), 4).join("\n"));
+    match (eng, r) {
+        (_, Err(14)) => Verdict::Inconclusive("empty-packet probe hit the watchdog".into()),
+        (Eng::Cranelift, Err(4)) => Verdict::Pass,
+        (Eng::Interp, Ok((2, _))) => Verdict::Pass,
+        (Eng::Cranelift, Ok((1, v))) => Verdict::fail("cranelift:no-trap:empty-packet", format!("a packet load on an empty packet returned {v:#x} instead of trapping\n{}", what())),
+        (Eng::Interp, Ok((1, v))) => Verdict::fail("interp:access-not-refused:empty-packet", format!("a packet load on an empty packet returned {v:#x} instead of an error\n{}", what())),
+        (_, Ok((s, _))) => Verdict::fail(format!("{}:empty-packet:status-{s}", if eng == Eng::Cranelift { "cranelift" } else { "interp" }), format!("status {s} (2 Err, 3 panic, 4 compile error, 5 load refused)\n{}", what())),
+        (_, Err(sig)) => Verdict::fail(format!("{}:empty-packet:signal-{sig}", if eng == Eng::Cranelift { "cranelift" } else { "interp" }), format!("the child died with signal {sig} (a Cranelift trap is signal 4)\n{}", what())),
+    }
+}
+
+fn empty_probe_json(p: &EmptyProbe) -> Value {
+    json!({"empty_packet_probe": [p.0, p.1, p.2, p.3, p.4]})
+}
+
+fn empty_probe_from_json(v: &Value) -> Option<EmptyProbe> {
+    let a = v.get("empty_packet_probe")?.as_array()?;
+    let w = a.get(3)?.as_u64()? as u8;
+    if !matches!(w, 1 | 2 | 4 | 8) {
+        return None;
+    }
+    Some((a.first()?.as_u64()? as u8, a.get(1)?.as_bool()?, a.get(2)?.as_bool()?, w, a.get(4)?.as_u64()? as u32))
+}
+
+fn empty_packet_probes(ctx: &Ctx, eng: Eng) {
+    if ctx.worker != 0 {
+        return;
+    }
+    let mem = Mem::new();
+    for vm in 0..3u8 {
+        for dangling in [true, false] {
+            for ind in [false, true] {
+                for w in [1u8, 2, 4, 8] {
+                    for imm in [0u32, 1, 7, 8, 0x1000] {
+                        let p: EmptyProbe = (vm, dangling, ind, w, imm);
+                        let v = empty_probe_check(&mem, &p, eng);
+                        {
+                            let mut st = ctx.stats();
+                            st.eval();
+                            st.class(&format!("empty-packet-load:{}", ["raw", "metadata", "fixed-metadata"][vm as usize]));
+                            st.distinct_by_construction += 1;
+                        }
+                        if ctx.enumerate_case(v, "probe", || empty_probe_json(&p)) {
+                            return;
+                        }
+                    }
+                }
+            }
+        }
+    }
 }
 
 fn replay02(_ctx: &Ctx, _kind: &str, case: &Value) -> Verdict {
+    if let Some(p) = empty_probe_from_json(case) {
+        return empty_probe_check(&Mem::new(), &p, Eng::Interp);
+    }
     match case_from_json(case) {
         Some((l, p)) => run_probe(&Mem::new(), &l, &p, Eng::Interp).0,
         None => Verdict::Discard("bad-replay"),
@@ -992,6 +1109,9 @@ fn replay02(_ctx: &Ctx, _kind: &str, case: &Value) -> Verdict {
 }
 
 fn replay11(_ctx: &Ctx, _kind: &str, case: &Value) -> Verdict {
+    if let Some(p) = empty_probe_from_json(case) {
+        return empty_probe_check(&Mem::new(), &p, Eng::Cranelift);
+    }
     match case_from_json(case) {
         Some((l, p)) => run_probe(&Mem::new(), &l, &p, Eng::Cranelift).0,
         None => Verdict::Discard("bad-replay"),
